@@ -10,6 +10,8 @@
 
 #include <boost/mqtt5/types.hpp>
 
+#include <boost/mqtt5/detail/verif.hpp>
+
 #include <boost/assert.hpp>
 #include <boost/smart_ptr/allocate_unique.hpp>
 
@@ -138,6 +140,8 @@ class packet_id_allocator {
 
     std::vector<interval> _free_ids;
     static constexpr uint16_t MAX_PACKET_ID = 65535;
+
+    BOOST_MQTT5_VERIF_FRIEND
 
 public:
     packet_id_allocator() {
